@@ -3,6 +3,7 @@ package engine
 import (
 	"fmt"
 	"go/token"
+	"go/types"
 	"strings"
 
 	"golang.org/x/tools/go/ssa"
@@ -527,7 +528,10 @@ func runC19Dispatch(c *Ctx, rule string) {
 		}
 		c.Check(len(bad) == 0, rule, "main", "callers:"+target, handle.Pos(), fmt.Sprintf("%d call site(s), all in %s", n, fnName(handle)), uniqJoin(bad, 2))
 	}
-	// (2) flag binding
+	// (2) flag binding: main is interpreted with the flag package modelled (flag.String / flag.StringVar
+	// bind a cell that holds the symbolic value "flag:-name"); every call of a handler is recorded with the
+	// value it receives. Struct fields, helper functions and local copies in between are followed by the
+	// interpreter, so the way the options are carried around does not matter.
 	classOf := func(fn *ssa.Function) string {
 		if fn == handle {
 			return "f"
@@ -547,54 +551,91 @@ func runC19Dispatch(c *Ctx, rule string) {
 		return ""
 	}
 	kind := map[string]string{"f": "per-file handler", "p": "glob handler (filepath.Glob)", "d": "directory handler (os.ReadDir)"}
-	flagVar := map[ssa.Value]string{}
-	for _, b := range mainFn.Blocks {
-		for _, ins := range b.Instrs {
-			if call, ok := ins.(*ssa.Call); ok && calleeName(&call.Call) == "flag.StringVar" && len(call.Call.Args) >= 2 {
-				if name, ok := constString(call.Call.Args[1]); ok && kind[name] != "" {
-					flagVar[call.Call.Args[0]] = name
+	in := NewInterp(p)
+	in.MaxDepth = 6
+	bound := map[string]bool{}
+	flagCell := func(in *Interp, name string, t types.Type) *Cell {
+		c := in.newCell(t, "flagvar:-"+name)
+		c.V = Sym{K: "flag:-" + name, T: t}
+		return c
+	}
+	for _, m := range []string{"String", "Bool", "Int"} {
+		m := m
+		in.Models["flag."+m] = func(in *Interp, site ssa.Instruction, cc *ssa.CallCommon, a []AVal) (AVal, bool) {
+			name, _ := isCstStr(a[0])
+			bound[name] = true
+			return Ptr{C: flagCell(in, name, cc.Signature().Results().At(0).Type().(*types.Pointer).Elem())}, true
+		}
+		in.Models["flag."+m+"Var"] = func(in *Interp, site ssa.Instruction, cc *ssa.CallCommon, a []AVal) (AVal, bool) {
+			name, _ := isCstStr(a[1])
+			bound[name] = true
+			if ptr, ok := a[0].(Ptr); ok {
+				ptr.C.V = Sym{K: "flag:-" + name, T: ptr.C.T}
+			}
+			return Tup{}, true
+		}
+	}
+	in.Models["flag.Parse"] = func(in *Interp, site ssa.Instruction, cc *ssa.CallCommon, a []AVal) (AVal, bool) { return Tup{}, true }
+	handlers := map[string]string{}
+	for _, fn := range p.Funcs {
+		if fn.Pkg == main && fn.Parent() == nil && fn != mainFn {
+			if cl := classOf(fn); cl != "" {
+				handlers[fnName(fn)] = cl
+				fn := fn
+				in.Models[fnName(fn)] = func(in *Interp, site ssa.Instruction, cc *ssa.CallCommon, a []AVal) (AVal, bool) {
+					in.Emit("dispatch", site, cstStr(fnName(fn)), a[0])
+					return Sym{K: "handled", T: types.Typ[types.Bool]}, true
 				}
+			} else {
+				in.NoInline[fnName(fn)] = true
 			}
 		}
 	}
-	if len(flagVar) != 3 {
-		c.Unk(rule, "main.main", "flags", mainFn.Pos(), fmt.Sprintf("expected the three string flags -f, -p, -d bound with flag.StringVar, found %d", len(flagVar)))
+	per := map[string][]string{}
+	passed := map[string]int{}
+	undecided := ""
+	for _, t := range in.Explore(mainFn, nil, 400) {
+		if t.Cut != "" {
+			undecided = t.Cut
+			continue
+		}
+		if t.Converged || t.Panic != "" {
+			continue
+		}
+		for _, e := range t.Events {
+			if e.Kind != "dispatch" {
+				continue
+			}
+			hn, _ := isCstStr(e.Args[0])
+			cl := handlers[hn]
+			got := keyOf(e.Args[1])
+			want := "flag:-" + cl
+			if got == want {
+				passed[cl]++
+				continue
+			}
+			src := strings.TrimPrefix(got, "flag:-")
+			if strings.HasPrefix(got, "flag:-") && kind[src] != "" {
+				per[src] = append(per[src], fmt.Sprintf("%s: the value of -%s is handed to %s, the %s, instead of the %s: e.g. a literal -f path containing '[' or '*' is expanded as a pattern and the file is not injected", p.Pos(instrPos(e.Site)), src, hn, kind[cl], kind[src]))
+			} else {
+				per[cl] = append(per[cl], fmt.Sprintf("%s: %s receives %s instead of the value of -%s", p.Pos(instrPos(e.Site)), hn, shorten(got, 60), cl))
+			}
+		}
+	}
+	if undecided != "" {
+		c.Unk(rule, "main.main", "flags", mainFn.Pos(), "main could not be interpreted: "+undecided)
 		return
 	}
-	for v, name := range flagVar {
-		var bad []string
-		passed := 0
-		for _, r := range refs(v) {
-			switch x := r.(type) {
-			case *ssa.Store:
-				if x.Addr == v {
-					bad = append(bad, fmt.Sprintf("%s: the variable bound to -%s is overwritten by the program: what the user passed is replaced or another flag's value is processed under this flag's mode", p.Pos(instrPos(r)), name))
-				}
-			case *ssa.UnOp:
-				for _, u := range refs(x) {
-					call, ok := u.(ssa.CallInstruction)
-					if !ok {
-						continue
-					}
-					sc := staticCallee(call.Common())
-					if sc == nil || sc.Pkg != main {
-						continue
-					}
-					if cl := classOf(sc); cl != "" {
-						if cl == name {
-							passed++
-						} else {
-							bad = append(bad, fmt.Sprintf("%s: the value of -%s is handed to %s, the %s, instead of the %s: e.g. a literal -f path containing '[' or '*' is expanded as a pattern and the file is not injected", p.Pos(instrPos(u)), name, sc.Name(), kind[cl], kind[name]))
-						}
-					}
-				}
-			}
+	for _, name := range []string{"d", "f", "p"} {
+		bad := per[name]
+		if !bound[name] {
+			bad = append(bad, "no string flag -"+name+" is bound")
 		}
-		if passed == 0 {
+		if passed[name] == 0 {
 			bad = append(bad, "the value of -"+name+" never reaches the "+kind[name])
 		}
 		c.Sites++
-		c.Check(len(bad) == 0, rule, "main.main", "flag:-"+name, mainFn.Pos(), "written by package flag only, handed to the "+kind[name], uniqJoin(bad, 2))
+		c.Check(len(bad) == 0, rule, "main.main", "flag:-"+name, mainFn.Pos(), "handed, as given, to the "+kind[name], uniqJoin(bad, 2))
 	}
 }
 
